@@ -48,7 +48,9 @@ def make_input(inp):
     h, w = inp.get("h", 10), inp.get("w", 12)
     if inp["kind"] == "pil":
         from PIL import Image
-        return Image.fromarray(rng.integers(0, 256, (h, w, 3), dtype=np.uint8))
+        a = rng.integers(0, 256, (h, w, 3), dtype=np.uint8)
+        a[0, 0], a[0, 1], a[1, 0] = (0, 0, 0), (255, 255, 255), (255, 0, 128)    # the ends of the value range are present
+        return Image.fromarray(a)
     if inp["kind"] == "tensor":
         # strictly inside (0, 1): float solarize inverts values >= threshold, thresholding zeroes values < threshold
         return torch.from_numpy(rng.uniform(0.02, 0.98, (3, h, w))).float()
